@@ -16,6 +16,8 @@ import (
 type domainRoutingOwnerSnapshot struct {
 	bitmap bpfDomainRouting
 	ips    map[[4]uint32]struct{}
+	// src is the cache entry the snapshot was built from (identity only).
+	src *DnsCache
 }
 
 type domainRoutingIPState struct {
@@ -78,6 +80,7 @@ func buildDomainRoutingOwnerSnapshot(cache *DnsCache) (domainRoutingOwnerSnapsho
 		return domainRoutingOwnerSnapshot{}, fmt.Errorf("domain bitmap length not sync with kern program")
 	}
 	var snapshot domainRoutingOwnerSnapshot
+	snapshot.src = cache
 	copy(snapshot.bitmap.Bitmap[:], cache.DomainBitmap)
 	ips := extractIPsFromDnsCache(cache)
 	if len(ips) == 0 {
@@ -139,6 +142,7 @@ func (t *domainRoutingTracker) applyOwnerSnapshotLocked(ownerKey string, snapsho
 	cloned := domainRoutingOwnerSnapshot{
 		bitmap: snapshot.bitmap,
 		ips:    cloneDomainRoutingIPSet(snapshot.ips),
+		src:    snapshot.src,
 	}
 	t.owners[ownerKey] = cloned
 	for key := range cloned.ips {
@@ -154,6 +158,21 @@ func (t *domainRoutingTracker) applyOwnerSnapshotLocked(ownerKey string, snapsho
 	}
 }
 
+// removeOwnerOf drops the owner's addresses unless the owner key has meanwhile been
+// taken over by a newer cache entry: the side effects of an eviction may run after
+// a fresh answer was stored (and synced) under the same cache key.
+func (t *domainRoutingTracker) removeOwnerOf(m *ebpf.Map, ownerKey string, evicted *DnsCache) error {
+	if ownerKey == "" {
+		return fmt.Errorf("empty domain routing owner key")
+	}
+	t.mu.Lock()
+	defer t.mu.Unlock()
+	if cur, ok := t.owners[ownerKey]; ok && cur.src != nil && evicted != nil && cur.src != evicted {
+		return nil
+	}
+	return t.syncOwnerLocked(m, ownerKey, domainRoutingOwnerSnapshot{})
+}
+
 func (t *domainRoutingTracker) syncOwner(
 	m *ebpf.Map,
 	ownerKey string,
@@ -165,6 +184,14 @@ func (t *domainRoutingTracker) syncOwner(
 
 	t.mu.Lock()
 	defer t.mu.Unlock()
+	return t.syncOwnerLocked(m, ownerKey, snapshot)
+}
+
+func (t *domainRoutingTracker) syncOwnerLocked(
+	m *ebpf.Map,
+	ownerKey string,
+	snapshot domainRoutingOwnerSnapshot,
+) error {
 
 	oldSnapshot := t.owners[ownerKey]
 	affected := make(map[[4]uint32]struct{}, len(oldSnapshot.ips)+len(snapshot.ips))
